@@ -26,7 +26,8 @@
     awaitedSourceBeforeContinuation  Subscription.Wait() returns after the subscription was torn
                                      down, which follows its terminal callback (subscriber.go:218,240).
 
-  Pinned tree: nine locations fail the predicate (`knownRacy`); each was confirmed with the race
+  Pinned tree: seven locations fail the predicate (`knownRacy`; two more, shared with C12, were
+  repaired in the repository meanwhile and are no longer excused); each was confirmed with the race
   detector on the real code (harness kind `race`, known_findings.jsonl). The full statement is
   `tableOk [] RoGen.Locksets.table = true`; it is false on the pinned tree (the check names the failing pairs).
 -/
